@@ -73,14 +73,15 @@ def _file_values(cfg, img):
     """The physical pixel values of the file (stored values after the cast to the file's dtype, times BSCALE)."""
     dtype = bw.file_dtype(cfg)
     bscale = cfg.get("bscale") or 1.0
-    raw = img / bscale
+    bzero = cfg.get("bzero") or 0.0
+    raw = (img - bzero) / bscale
     if cfg["bitpix"] > 0:
         info = np.iinfo(dtype)
         ok = np.isfinite(raw) & (raw == np.round(raw)) & (raw >= info.min) & (raw <= info.max)
         stored = np.where(ok, raw, 0).astype(dtype).astype(np.float64)
         stored[~ok] = np.nan          # not representable: makes _exact() fail, the relation is then skipped
-        return stored * bscale
-    return raw.astype(dtype).astype(np.float64) * bscale
+        return stored * bscale + bzero
+    return raw.astype(dtype).astype(np.float64) * bscale + bzero
 
 
 def _exact(cfg, img):
@@ -178,7 +179,9 @@ def case(ch):
     if outmode:
         cfg["out_base"] = bw.fresh_path("c06out", "")
         cfg["compressed"] = outmode == 2
-    if outmode == 1 and ch.chance("via_cli", 1, 2):
+    if outmode == 1 and ch.chance("via_cli", 1, 2) and cfg.get("bzero") is None:
+        # (with a BZERO keyword the float32 files store map - BZERO and lose precision: maps read back from them are
+        #  not fit for the exact relations; the file-equality oracle below covers that case with a tolerance)
         cfg["via_cli"] = True          # run through AegeanTools/CLI/BANE.py main(argv); maps read back from its files
     img = bw.make_image(cfg, content)
     vals = _file_values(cfg, img)
@@ -222,7 +225,8 @@ def _case_body(ch, out, cfg, content, hot, line, outmode, img, vals, fn, files):
                 out.violation("file-missing", "%s was not written" % suffix, sig=None, cfg=_cfg_str(cfg))
                 return out
             data = fits.getdata(path)          # astropy applies the BSCALE keyword copied from the input header
-            if data.shape != arr.shape or not np.allclose(data, arr, rtol=2e-7, atol=0, equal_nan=True):
+            atol = 4 * 2.0 ** -23 * (abs(cfg.get("bzero") or 0.0) + float(np.nanmax(np.abs(arr), initial=0.0))) if cfg.get("bzero") else 0.0
+            if data.shape != arr.shape or not np.allclose(data, arr, rtol=2e-7, atol=atol, equal_nan=True):
                 out.violation("file-differs", "%s differs from the returned map" % suffix, sig=None, cfg=_cfg_str(cfg))
                 return out
     if outmode == 2:
@@ -283,10 +287,13 @@ def _case_body(ch, out, cfg, content, hot, line, outmode, img, vals, fn, files):
         cfg2["rows"] = max(2, cfg["rows"] + (3, -2, 7, 0)[ch.draw("rw_rows", 4)])
         cfg2["cols"] = max(2, cfg["cols"] + (-1, 2, 0, 5)[ch.draw("rw_cols", 4)])
         cfg2["bscale"] = (None, 2.0, -2.0, 0.5)[ch.draw("rw_bscale", 4)]
+        cfg2["bzero"] = (None, None, 64.0, cfg.get("bzero"))[ch.draw("rw_bzero", 4)]
         if cfg["bitpix"] > 0:
             # integer pixels: the stored values must stay whole numbers, so BSCALE stays one quantum of the grid (its
             # sign and a factor of two may change)
             cfg2["bscale"] = cfg["bscale"] * (1.0, 1.0, -1.0, 0.5)[ch.draw("rw_bscale_int", 4)]
+            if cfg2["bzero"] is not None:
+                cfg2["bzero"] = 512.0 * abs(cfg2["bscale"])
         cfg2["naxis"] = (2, 3, 4)[ch.draw("rw_naxis", 3)]
         cfg2["nplanes"] = 2 if cfg2["naxis"] > 2 else 1
         cfg2["cube_index"] = ch.draw("rw_cube", cfg2["nplanes"])
